@@ -70,13 +70,14 @@ def run_one(args):
                 time.time() - t0)
     if mut.kind == "breaks":
         hits = []
-        for pid in mut.props:
+        want_props = [p_ for p_ in mut.props if p_ in pids]
+        for pid in want_props:
             st, viol, errs = res.get(pid, (0, [], []))
             for rule, key, detail in viol:
                 if not mut.rules or any(rule.startswith(r)
                                         for r in mut.rules):
                     hits.append((pid, rule, key))
-        missed = [pid for pid in mut.props
+        missed = [pid for pid in want_props
                   if not any(h[0] == pid for h in hits)]
         if missed:
             info = {pid: res.get(pid) for pid in missed}
